@@ -4,6 +4,8 @@
 mod consts;
 mod fam_fx;
 mod fam_panic;
+mod mon;
+mod mon_c15;
 mod rng;
 
 use rng::Rng;
@@ -46,6 +48,21 @@ fn main() {
             for l in out {
                 writeln!(w, "{}", l).unwrap();
             }
+        }
+        "monitor" => {
+            let prop = args[2].as_str();
+            let seed: u64 = args[3].parse().unwrap();
+            let n: usize = args[4].parse().unwrap();
+            let mut rng = Rng::new(seed ^ 0x5EED_0000 ^ prop.bytes().fold(0u64, |a, b| a.wrapping_mul(131).wrapping_add(b as u64)));
+            let mut rep = mon::Report::default();
+            match prop {
+                "C15" => mon_c15::run(&mut rng, n, &mut rep),
+                _ => {
+                    eprintln!("no monitor for {}", prop);
+                    std::process::exit(2);
+                }
+            }
+            rep.print(prop);
         }
         _ => {
             eprintln!("unknown command");
